@@ -16,7 +16,12 @@ Model: `Model/DupCache.lean` (state machine over integer coordinates, cell size 
  * `insert_refuses_duplicates`, `step_*_pairSep`, `reachable_pairSep`: the checked insertion keeps
    the live vertices pairwise separated (the Edit API `editInsert` deliberately does not check);
  * `buggy_witness`: with the pre-fix behaviour (Edit-API operations keep the grid) the cache
-   misses a duplicate; `fixed_witness`: the same history under the real `step` does not.
+   misses a duplicate; `fixed_witness`: the same history under the real `step` does not;
+ * `Op.rebuild` (the Tds is replaced, every live vertex gets a fresh key, the grid is re-keyed —
+   fix F22): `step_rebuild_pairSep`, `scanDup_rebuild`, `rebuild_idx_eq_verts` (after a rebuild the
+   grid holds exactly the live vertices, no stale entry survives); `stale_rekey_witness`: if the
+   rebuild renumbers the vertices but leaves the grid entries as they are, every entry is stale and
+   the cache misses a duplicate, while the real `step` reports it.
 -/
 import DelaunayModel.Lemmas.DupAux
 namespace DM.C09
@@ -126,6 +131,13 @@ theorem step_consistent (s : St) (op : Op) (h : Consistent s) : Consistent (step
   | editRemove k => simp [step, Consistent]
   | dropIndex => simp [step, Consistent]
   | clone => exact h
+  | rebuild b =>
+    -- the grid (if any) is re-keyed from the rebuilt vertex set: it holds exactly the new `verts`
+    cases idx with
+    | none => simp [step, Consistent]
+    | some es =>
+      simp only [step, Consistent, Option.map_some]
+      exact fun v hv => hv
 
 theorem not_mem_keys_of_any_eq_false {verts : List (Nat × Pt)} {k : Nat}
     (h : ¬ verts.any (·.1 == k) = true) : k ∉ verts.map (·.1) := by
@@ -174,6 +186,7 @@ theorem step_keysUnique (s : St) (op : Op) (h : KeysUnique s) : KeysUnique (step
   | editRemove k => exact nodup_keys_filter _ h
   | dropIndex => exact h
   | clone => exact h
+  | rebuild b => exact rekey_keys_nodup b verts
 
 theorem run_consistent (s : St) (ops : List Op) (h : Consistent s) : Consistent (run s ops) := by
   induction ops generalizing s with
@@ -229,6 +242,12 @@ theorem step_vertsDim (d : Nat) (s : St) (op : Op) (hop : OpDim d op) (h : Verts
     exact fun v hv => h v hv.1
   | dropIndex => exact h
   | clone => exact h
+  | rebuild b =>
+    simp only [step, VertsDim]
+    intro v hv
+    obtain ⟨w, hw, hw'⟩ := exists_of_mem_rekey hv
+    rw [← hw']
+    exact h w hw
 
 theorem run_vertsDim (d : Nat) (s : St) (ops : List Op) (hops : ∀ op ∈ ops, OpDim d op)
     (h : VertsDim d s) : VertsDim d (run s ops) := by
@@ -294,6 +313,47 @@ theorem step_dropIndex_pairSep (s : St) (h : PairSep s) : PairSep (step s .dropI
 
 theorem step_clone_pairSep (s : St) (h : PairSep s) : PairSep (step s .clone) := h
 
+/-- renumbering the live vertices keeps them pairwise separated (the coordinates are unchanged);
+distinct old keys are needed so that "two different entries" means the same before and after -/
+theorem step_rebuild_pairSep (s : St) (b : Nat) (hku : KeysUnique s) (h : PairSep s) :
+    PairSep (step s (.rebuild b)) := by
+  obtain ⟨c, verts, idx⟩ := s
+  simp only [KeysUnique] at hku
+  simp only [PairSep] at h
+  simp only [step, PairSep]
+  apply forall_ne_of_pairwise (R := fun p q => ¬ (dist2 p q < c * c))
+  · intro p q hpq
+    rw [DM.DupAux.dist2_comm]
+    exact hpq
+  · rw [rekey_map_snd]
+    exact pairwise_of_forall_ne hku h
+
+/-- the linear scan only sees coordinates, so renumbering does not change its answer -/
+theorem scanDup_rebuild (s : St) (b : Nat) (q : Pt) :
+    scanDup (step s (.rebuild b)) q = scanDup s q := by
+  obtain ⟨c, verts, idx⟩ := s
+  show (rekey b verts).any (fun v => decide (dist2 v.2 q < c * c))
+    = verts.any (fun v => decide (dist2 v.2 q < c * c))
+  apply Bool.eq_iff_iff.2
+  simp only [List.any_eq_true, decide_eq_true_eq]
+  constructor
+  · rintro ⟨v, hv, hd⟩
+    obtain ⟨w, hw, hw'⟩ := exists_of_mem_rekey hv
+    exact ⟨w, hw, by rw [hw']; exact hd⟩
+  · rintro ⟨w, hw, hd⟩
+    obtain ⟨v, hv, hv'⟩ := exists_mem_rekey_of_mem b hw
+    exact ⟨v, hv, by rw [hv']; exact hd⟩
+
+/-- after a rebuild the grid (if any) holds exactly the live vertices: no stale entry survives -/
+theorem rebuild_idx_eq_verts (s : St) (b : Nat) (es : List (Nat × Pt))
+    (h : (step s (.rebuild b)).idx = some es) : es = (step s (.rebuild b)).verts := by
+  obtain ⟨c, verts, idx⟩ := s
+  cases idx with
+  | none => simp [step] at h
+  | some es' =>
+    simp only [step, Option.map_some, Option.some.injEq] at h ⊢
+    exact h.symm
+
 /-- the operation is not the unchecked Edit-API insertion -/
 def Checked : Op → Prop
   | .editInsert _ _ => False
@@ -302,7 +362,8 @@ def Checked : Op → Prop
 /-- all operations except `editInsert` keep the live vertices pairwise separated, provided the
 duplicate check of a checked insertion is transparent (which `reachable_query_eq_scan` gives) -/
 theorem step_pairSep (s : St) (op : Op) (hop : Checked op)
-    (heq : ∀ k p, op = .insert k p → isDup s p = scanDup s p) (h : PairSep s) :
+    (heq : ∀ k p, op = .insert k p → isDup s p = scanDup s p)
+    (hrb : ∀ b, op = .rebuild b → KeysUnique s) (h : PairSep s) :
     PairSep (step s op) := by
   cases op with
   | seed => exact step_seed_pairSep s h
@@ -312,6 +373,7 @@ theorem step_pairSep (s : St) (op : Op) (hop : Checked op)
   | editRemove k => exact step_editRemove_pairSep s k h
   | dropIndex => exact h
   | clone => exact h
+  | rebuild b => exact step_rebuild_pairSep s b (hrb b rfl) h
 
 /-- from a grid-less, pairwise separated start, every history of checked operations (no
 `editInsert`) keeps the live vertices pairwise separated -/
@@ -328,7 +390,7 @@ theorem reachable_pairSep (s0 : St) (ops : List Op) (d : Nat)
     refine ih (step s0 op) (by rw [step_c]; exact hc) (step_keysUnique s0 op hku)
       (step_vertsDim d s0 op hop hdim) (fun o ho => hops o (by simp [ho]))
       (fun o ho => hchk o (by simp [ho])) ?_ (step_consistent s0 op hcons0)
-    apply step_pairSep s0 op (hchk op (by simp)) _ hsep
+    apply step_pairSep s0 op (hchk op (by simp)) _ (fun _ _ => hku) hsep
     rintro k p rfl
     exact consistent_query_eq_scan s0 d p hc hku hcons0 hdim hop
 
@@ -356,6 +418,7 @@ def stepBuggy (s : St) : Op → St
   | .editRemove k => { s with verts := s.verts.filter (·.1 != k), idx := s.idx }
   | .dropIndex => { s with idx := none }
   | .clone => s
+  | .rebuild b => let vs := rekey b s.verts; { s with verts := vs, idx := s.idx.map (fun _ => vs) }
 
 def w0 : St := { c := 10, verts := [(0, [0])], idx := none }
 
@@ -386,6 +449,47 @@ theorem fixed_witness_refuses :
     (run w0 [Op.seed, Op.editInsert 1 [100], Op.insert 2 [105]]).verts
       = [(1, [100]), (0, [0])] := by decide
 
+/-! ### 8b. the pre-fix behaviour of `rebuild` (negative result, F22) -/
+
+/-- `step` before the fix F22: `rebuild` renumbers the live vertices but leaves the grid entries as
+they are (the old keys no longer resolve, so every entry is stale); all other operations as in
+`step` -/
+def stepStaleRekey (s : St) : Op → St
+  | .rebuild b => { s with verts := rekey b s.verts, idx := s.idx }
+  | op => step s op
+
+def r0 : St := { c := 10, verts := [], idx := none }
+
+/-- seed a grid, insert two vertices, remove the first, rebuild with fresh keys `2, 3, …` -/
+def rekeyHist : List Op := [.seed, .insert 0 [0], .insert 1 [100], .remove 0, .rebuild 2]
+
+/-- pre-fix: after the rebuild the surviving vertex has key 2 but its grid entry still carries
+key 1, so a point within tolerance of it is a duplicate by scan and is NOT reported by the cache;
+with the real `step` (grid re-keyed) the cache reports it -/
+theorem stale_rekey_witness :
+    let sb := rekeyHist.foldl stepStaleRekey r0
+    let sf := run r0 rekeyHist
+    (scanDup sb [105] = true ∧ isDup sb [105] = false) ∧
+    (scanDup sf [105] = true ∧ isDup sf [105] = true) := by decide
+
+/-- the two final states: same live vertices, stale vs re-keyed grid -/
+theorem stale_rekey_states :
+    (rekeyHist.foldl stepStaleRekey r0).verts = [(2, [100])] ∧
+    (rekeyHist.foldl stepStaleRekey r0).idx = some [(1, [100]), (0, [0])] ∧
+    (run r0 rekeyHist).verts = [(2, [100])] ∧
+    (run r0 rekeyHist).idx = some [(2, [100])] := by decide
+
+/-- pre-fix: the invariant `Consistent` is what the un-re-keyed rebuild broke -/
+theorem stale_rekey_breaks_consistent : ¬ Consistent (rekeyHist.foldl stepStaleRekey r0) := by
+  intro h
+  have h' : ∀ v ∈ [((2 : Nat), ([100] : Pt))], v ∈ [((1 : Nat), ([100] : Pt)), (0, [0])] := h
+  exact absurd (h' (2, [100]) (by simp)) (by decide)
+
+/-- pre-fix: the missed duplicate is then inserted; the real `step` refuses it -/
+theorem stale_rekey_inserts_duplicate :
+    ((rekeyHist ++ [Op.insert 3 [105]]).foldl stepStaleRekey r0).verts = [(3, [105]), (2, [100])] ∧
+    (run r0 (rekeyHist ++ [.insert 3 [105]])).verts = [(2, [100])] := by decide
+
 /-! ### 9. non-vacuity: a small 2-D history -/
 
 def e0 : St := { c := 10, verts := [], idx := none }
@@ -412,6 +516,14 @@ example : nearBucket (bucket 10 [-3, -4]) (bucket 10 [0, 0]) = true := by decide
 
 /-- just outside the tolerance: accepted -/
 example : isDup (run e0 hist) [6, 8] = false := by decide
+
+/-- a rebuild renumbers the live vertices and re-keys the grid: the stale entry is gone, the
+duplicate check answers as before -/
+example : (run e0 (hist ++ [.rebuild 7])).verts = [(7, [0, 0])] := by decide
+example : (run e0 (hist ++ [.rebuild 7])).idx = some [(7, [0, 0])] := by decide
+example : isDup (run e0 (hist ++ [.rebuild 7])) [-3, -4] = true := by decide
+example : isDup (run e0 (hist ++ [.rebuild 7])) [50, 50] = false := by decide
+example : ∀ op ∈ hist ++ [.rebuild 7], OpDim 2 op ∧ Checked op := by simp [hist, OpDim, Checked]
 
 /-- the hypotheses of `reachable_query_eq_scan` / `reachable_pairSep` hold for this history -/
 example : ∀ op ∈ hist ++ [.insert 2 [50, 50], .insert 3 [53, 46]], OpDim 2 op := by
